@@ -8,7 +8,7 @@ MODEL_MODULES = ["Base", "Index", "Broadcast", "Select"]
 HANDLERS = ["h_c04.ml"]
 
 PROVED = ["C04_tile_shape", "C04_tile_element", "C04_repeat_flat", "C04_repeat_axis", "C04_roll_axis", "C04_roll_flat",
-          "C04_pad", "C04_take_axis", "C04_take_flat", "C04_compress_axis", "C04_resize", "C04_concatenate_axis",
+          "C04_pad", "C04_take_axis", "C04_take_flat", "C04_compress_axis", "C04_resize", "C04_resize_exact_monotone", "C04_resize_index_monotone", "C04_concatenate_axis",
           "C04_concatenate_flat", "C04_tril_triu", "C04_tril_triu_1d", "C04_tri_eye", "C04_diagflat",
           "C04_sliding_window_axis", "C04_expand_axis", "C04_arange_count", "C04_linspace_element", "C04_join_elements_on_domain"]
 PARTIAL = ["C04_diagonal_matrix_partial"]
@@ -23,7 +23,8 @@ CLAIM = dict(
           "non-fill element is in bounds): tile (shape for all arguments; element i = a[i mod shape]); repeat with a scalar count (axis=None "
           "and every valid axis -dim <= axis < dim); roll with one axis (negative axes, any shift sign and magnitude) and axis=None; pad "
           "(documented widths [before.., after..], constant fill); take (every valid axis or axis=None, every valid entry incl. negative ones "
-          "counted from the end); compress along every valid axis; resize (nearest neighbour); concatenate (every valid axis and axis=None); "
+          "counted from the end); compress along every valid axis; resize (nearest neighbour as exact integer floor division, in bounds and "
+          "monotone for every extent); concatenate (every valid axis and axis=None); "
           "tril / triu (dim >= 2 and the 1-d form), tri, eye, diagflat; sliding_window and expand along one axis (negative axes included); the "
           "element count of arange (empty ranges included) and the elements of linspace as exact rationals (num = 1 included); PARTIAL: "
           "diagonal for matrices with axes (0,1) and ANY offset (negative, beyond the extent). These statements describe the tree WITH the "
@@ -53,7 +54,11 @@ RULE = ("per routine: small-scope box (source dim 1..3, extents 1..3; thorough d
         "and of roll, repeat, tile, take, pad, concatenate, split, expand, sliding_window, resize as run-time int, run-time size_t, "
         "meta::ct_v<k>, k_ct, None or omitted, list arguments as vector / array / run-time tuple / tuple of constants, crossed so that both-"
         "constant, constant+run-time, run-time+constant and constant+None arms are instantiated with N != M and k != 0; the Model ignores "
-        "the form, shape and every element are compared. non-trivial = source of dim >= 2 with an "
+        "the form, shape and every element are compared. LARGER EXTENTS: resize on 40 seeded extent pairs from 5..200 at view level and 300 "
+        "pairs at index level (index::resize of every output position; multiples, coprime pairs, pairs with a common factor, "
+        "neighbours, src > dst and src < dst, 1-d and one long axis of a 2-d shape), repeat with counts up to 64, tile, roll with shifts "
+        "of many extents, sliding_window / expand / pad / diagonal on long axes, arange up to 150 elements, linspace up to 100, all "
+        "against the Model's exact integer arithmetic (C04_resize, C04_resize_exact_monotone hold for every extent). non-trivial = source of dim >= 2 with an "
         "extent > 1; distinct = distinct case lines")
 THEOREM_STATUS = {"proved": PROVED, "partial": PARTIAL, "refuted": REFUTED}
 ASSUMPTIONS = ["extents are positive; repeats/reps >= 1; arithmetic in Z (extents far below 2^31 in every generated case)"]
@@ -555,6 +560,69 @@ def gen_cases(rng, tier):
                 add("dtype_generators", "tarange S:%s I:%d I:%d I:%d I:%d" % (dt, a_, b_, p, qq), "c04c")
             for (a_, b_, n_, e) in [(2, 10, 5, 1), (-2, 9, 4, 0), (3, 9, 1, 1), (3, 9, 1, 0), (7, -9, 3, 1), (1, 1, 2, 1)]:
                 add("dtype_generators", "tlinspace S:%s I:%d I:%d I:%d I:%d" % (dt, a_, b_, n_, e), "c04c")
+    # ================= larger extents: every view whose source index is an ARITHMETIC function of the extents, on a band of
+    # extents 5..200 (1-d and one long axis of a 2-d array), every element against the Model's exact integer arithmetic
+    import math
+    def extent_pair():
+        """(src, dst) in 5..200: multiples, coprime pairs, pairs with a common factor (many exact quotients src*i/dst),
+        neighbours; both src > dst and src < dst"""
+        kind = rng.choice(["common", "common", "common", "multiple", "coprime", "near", "any"])
+        for _ in range(200):
+            if kind == "common":
+                g = rng.randint(2, 25); a_, b_ = rng.randint(1, 200 // g), rng.randint(1, 200 // g)
+                n, m = g * a_, g * b_
+            elif kind == "multiple":
+                n = rng.randint(5, 50); m = n * rng.randint(2, 200 // n)
+                if rng.random() < 0.5: n, m = m, n
+            elif kind == "near":
+                n = rng.randint(6, 199); m = n + rng.choice([-1, 1])
+            else:
+                n, m = rng.randint(5, 200), rng.randint(5, 200)
+                if kind == "coprime" and math.gcd(n, m) != 1: continue
+            if 5 <= n <= 200 and 5 <= m <= 200 and n != m: return n, m
+        return 26, 22
+    nv, ni = (40, 300) if q else (120, 1500)
+    for n_ in range(nv):                                   # view level: every element of the resized array
+        n, m = extent_pair()
+        if n_ % 4 == 3:
+            k = rng.randint(2, 3)
+            s, d = ((n, k), (m, rng.randint(1, 4))) if rng.random() < 0.5 else ((k, n), (rng.randint(1, 4), m))
+        else: s, d = (n,), (m,)
+        add("large_extents", "%s %s %s" % ("resize S:vec" if n_ % 5 else "resize_e", A(s), L(d)))
+    for n_ in range(ni):                                   # index level: index::resize of every output position, no array
+        n, m = extent_pair()
+        if n_ % 6 == 5:
+            k, k2 = rng.randint(2, 3), rng.randint(1, 4)
+            s, d = ((n, k), (m, k2)) if rng.random() < 0.5 else ((k, n), (k2, m))
+        else: s, d = (n,), (m,)
+        add("large_extents", "resize_ixall S:%s %s %s" % (["vec", "arr", "sv"][n_ % 3], L(s), L(d)))
+    for _ in range(8 if q else 30):
+        n = rng.randint(5, 60); r = rng.choice([7, 16, 33, 50, rng.randint(4, 64)])
+        if rng.random() < 0.5: add("large_extents", "repeat S:vec %s I:%d %s" % (A((n,)), r, AX(rng.choice([None, 0, -1]))))
+        else: add("large_extents", "repeat S:vec %s I:%d I:%d" % (A((n, 2)), r, rng.choice([0, -2])))
+        n = rng.randint(5, 80); reps = rng.randint(2, 12)
+        if rng.random() < 0.5: add("large_extents", "tile S:vec %s %s" % (A((n,)), L([reps])))
+        else: add("large_extents", "tile S:vec %s %s" % (A((2, n)), L([rng.randint(1, 2), reps])))
+        n = rng.randint(5, 200); sh = rng.choice([-1, 1]) * (rng.randint(0, 12) * n + rng.randint(0, n))
+        if rng.random() < 0.5: add("large_extents", "roll S:vec %s I:%d %s" % (A((n,)), sh, AX(rng.choice([None, 0, -1]))))
+        else: add("large_extents", "roll S:vec %s I:%d %s" % (A((3, n)), sh, AX(rng.choice([None, 1, -1]))))
+    for _ in range(5 if q else 20):
+        n = rng.randint(20, 120); w = rng.randint(2, n // 2)
+        add("large_extents", "sw1 S:vec %s I:%d I:0" % (A((n,)), w), "c04b")
+        n = rng.randint(10, 60); w = rng.randint(2, n // 2)
+        add("large_extents", "sw S:vec %s %s %s" % (A((2, n)), L([w]), L([-1])), "c04b")
+        n = rng.randint(10, 80); sp_ = rng.randint(3, 9)
+        add("large_extents", "expand S:vec %s I:%d I:%d" % (A((n,)) if rng.random() < 0.5 else A((n, 2)), 0, sp_))
+        n = rng.randint(5, 60); w = [rng.randint(0, 30), rng.randint(0, 30)]
+        add("large_extents", "pad S:vec %s %s" % (A((n,)), L(w)))
+        n1, n2 = rng.randint(5, 60), rng.randint(5, 60)
+        add("large_extents", "diagonal S:vec %s I:%d I:0 I:1" % (A((n1, n2)), rng.randint(-n1 - 1, n2 + 1)), "c04b")
+    for _ in range(8 if q else 30):
+        p_ = rng.choice([7, 13, -7, -13, 3, -1]); a_ = rng.randint(-50, 50); cnt = rng.randint(20, 150)
+        add("large_extents", "arange I:%d I:%d I:%d I:1" % (a_, a_ + p_ * cnt + rng.choice([-1, 0, 1]) * rng.randint(0, abs(p_) - 1), p_), "c04b")
+        pq = rng.choice([(3, 4), (-5, 4), (1, 2), (-3, 2)]); cnt = rng.randint(20, 120)
+        add("large_extents", "arange I:%d I:%d I:%d I:%d" % (a_, a_ + (pq[0] * cnt) // pq[1] + (1 if pq[0] > 0 else -1), pq[0], pq[1]), "c04b")
+        add("large_extents", "linspace I:%d I:%d I:%d I:%d" % (rng.randint(-20, 20), rng.randint(-20, 60), rng.choice([17, 33, 64, 97, rng.randint(10, 100)]), rng.randint(0, 1)), "c04b")
     # ================= argument forms (generated TU, harness/gen_c04.py): the Model ignores the form
     for line, _eid in gen_c04.lines(rng): add("argument_forms", line, "c04c")
     return out
